@@ -42,7 +42,13 @@ for d in sorted(glob.glob('/tmp/seedfacts/C*') + glob.glob('/tmp/seed[2345]facts
     if b.startswith('C') and b[:3] in PIDS:
         jobs.append((d, b[:3]))
     else:
-        jobs += [(d, p) for p in PIDS]
+        # refactoring+defect controls and hand-written mutants: the checks their meta.json names
+        name = b if os.path.isdir('/verif/mutants/' + b) else 'RM_' + b[1:]
+        try:
+            exp = json.load(open('/verif/mutants/%s/meta.json' % name))['expected_caught_by']
+        except Exception:
+            exp = PIDS
+        jobs += [(d, p) for p in exp]
 with ThreadPoolExecutor(12) as ex:
     res = list(ex.map(run, jobs))
 pinned, failing = {}, {}
